@@ -4,7 +4,7 @@
 //   bcmp w=<8|16|32|w> a=<hex> b=<hex> n=  => cmp=<3|6 signs> ops=<3 bools>
 //   bcmpnull w= a= n=                      => cmp=<1|2 signs>
 //   rawcmp w= a=<unit> b=<unit> la= lb= n= => r=<sign>      static (ptr,len) form; lengths are only numbers
-//   bigcmp len=<N>                         => cmp=<6 signs> ops=<6 bools>   a real ST::string of len bytes against ""
+//   bigcmp len=<N>                         => cmp=<6 signs> ops=<6 bools>   a real ST::string of len (unwritten) bytes against ""
 //   casemap a=<hex>                        => up=<hex> lo=<hex> h=<hex64> hi=<hex64> sh=<b>
 //   tri a= b= c=                           => s=<ab ba bc ac> i=<ab ba bc ac>
 //   blk.scmp a= alpha= maxlen= | blk.bcmp w= a= alpha= maxlen= | blk.tri a= alpha= maxlen=   => digest
@@ -84,7 +84,8 @@ static std::string do_tri(const std::string &A, const std::string &B, const std:
 
 static std::string do_bigcmp(size_t len) {
     try {
-        ST::char_buffer buf; buf.allocate(len, 'a');
+        // no fill: against the empty string no unit is ever read, and untouched pages cost nothing
+        ST::char_buffer buf; buf.allocate(len);
         ST::string big = ST::string::from_validated(std::move(buf));
         ST::string e;
         const ST::case_sensitivity_t ci = ST::case_insensitive;
@@ -304,4 +305,11 @@ static void gen(Emitter &em, const Options &opt) {
     }
 }
 
-int main(int argc, char **argv) { return run_main(argc, argv, gen, exec_case); }
+// The machine is shared: a case can be descheduled (or a 2-4 GB allocation can take) longer than the runner's default
+// 4 s no-progress limit, which would be reported as a hang of the library.  Nothing in this family loops on its input,
+// so the limit is raised (a later --timeout on the command line still overrides it).
+int main(int argc, char **argv) {
+    std::vector<char *> av{argv[0], (char *)"--timeout", (char *)"30"};
+    for (int i = 1; i < argc; ++i) av.push_back(argv[i]);
+    return run_main((int)av.size(), av.data(), gen, exec_case);
+}
